@@ -1,6 +1,6 @@
 SPECIFICATION Spec
 CONSTANTS
-  Vals <- V7
+  Vals <- V5
   Wts <- W4
   Lens = {1, 2, 3}
   MaxSteps = 0
